@@ -91,6 +91,14 @@ RANGE_ERROR_SEEDS = [
 ]
 
 
+# free text inside the comment block of a liquid tag
+LIQUID_COMMENT_SEEDS = [
+    "{% liquid\n  comment\n    TODO: fix this\n    - item\n    1st {{ foo }}\n  endcomment\n  echo 'x'\n%}",
+    "{% liquid\ncomment\nHello World\n\n  # x\ncomment\nNested Text\nendcomment\nendcomment\necho 'y' %}tail",
+    "{% liquid\n comment\n Hello %}", "{% liquid\n comment\n Hello\n",
+]
+
+
 @st.composite
 def prog_source(draw: Any) -> dict[str, Any]:
     prog = draw(program_strategy(PROG_CFG))
@@ -143,6 +151,8 @@ class C17(Prop):
         for t in corpus():
             yield {"kind": "text", "src": t["template"], "data": {}, "templates": t.get("templates") or {},
                    "origin": "corpus"}
+        for src in LIQUID_COMMENT_SEEDS:
+            yield {"kind": "text", "src": src, "data": {}, "templates": {}, "origin": "liquid-comment"}
         for src in RANGE_ERROR_SEEDS:
             yield {"kind": "text", "src": src, "data": {}, "templates": {}, "origin": "range-error"}
         for src in SHORTHAND_SEEDS:
